@@ -288,7 +288,12 @@ def describe(v):
     if isinstance(v, ScalarType):
         return ("scalar", type(v).__name__)
     if isinstance(v, Array):
-        return ("array", v.size)
+        ct = v.contained_type
+        if isinstance(ct, type):
+            e = ct.__name__
+        else:
+            e = type(ct).__name__
+        return ("array", v.size, e)
     if isinstance(v, Tuple):
         return ("tuple",)
     if isinstance(v, NTuple):
